@@ -342,7 +342,7 @@ CHECKS["C07"]["harnesses"].append(
 
 CHECKS["C12"]["harnesses"].append(
     dict(_WS, harness="Harness_C12_multipartDo", reach=["c12.multipartdo", "c12.multipartdo.rejected"], race=True, sched_confirm=True,
-         quick={"params": {"ticks": 1, "maxinc": 1}, "sample_models": 10, "sample_every": 7}, thorough={"params": {"ticks": 1, "maxinc": 2}, "workers": 14, "sample_models": 16, "sample_every": 101},
+         native_retries=40, quick={"params": {"ticks": 1, "maxinc": 2}, "sample_models": 10, "sample_every": 7}, thorough={"params": {"ticks": 1, "maxinc": 3}, "workers": 14, "sample_models": 16, "sample_every": 101},
          what="MultipartMixed.Do as a whole (aggregator goroutine with its real ticker ticking at any scheduling point, payload production and every Write/Flush being scheduling points, response loop, Done, final flush): 1 + 0..1 [2] payloads / rejected operation: multipart grammar, exactly-once, order, closing boundary, ticker goroutine ends, no concurrent use of the ResponseWriter (race check)"))
 
 CHECKS["C04"]["harnesses"].append(
